@@ -69,7 +69,9 @@ Cmp == { [c |-> "cmp", lhs |-> IF sw THEN p[2] ELSE p[1], rhs |-> IF sw THEN p[1
 PermSets == { "", "r", "w", "x", "a", "rw", "rx", "ra", "wx", "wa", "xa", "rwx", "rwa", "rxa", "wxa", "rwxa" }
 Watch == { [c |-> "watch", perm |-> p, wtype |-> t, nkeys |-> k] : p \in PermSets, t \in { "path", "dir" }, k \in 0..2 }
 
-NFields == { [c |-> "nfields", n |-> n, key |-> k] : n \in { 0, 1, 2, 31, 62, 63, 64, 65, 70 }, k \in BOOLEAN }
+\* the 64-entry field table is filled by -F and by -C arguments alike; cmp says where the -C ones sit
+NFields == { [c |-> "nfields", n |-> n, key |-> k, cmp |-> m] : n \in { 0, 1, 2, 31, 62, 63, 64, 65, 66, 70 }, k \in BOOLEAN,
+             m \in { "none", "last", "last2", "first", "all" } }
 
 SysNums == { 0, 1, 15, 16, 31, 32, 33, 63, 64, 1023, 1024, 2016, 2046, 2047 }
 SysNum == { [c |-> "sysnum", a |-> a, b |-> b] : a \in SysNums, b \in SysNums }
@@ -83,8 +85,8 @@ Decode == { [c |-> "decode", word |-> w, value |-> v] : w \in HeaderWords, v \in
 FlagLetters == { "a", "A", "F", "C", "S", "k", "w", "p", "D", "X" }    \* X: a stray positional word
 Seqs(S, n) == UNION { [1..m -> S] : m \in 0..n }
 FlagCases == { [c |-> "flags", order |-> s] : s \in Seqs(FlagLetters, 4) }
-NoRepeat(s) == \A i, j \in 1..Len(s) : (i # j /\ s[i] = s[j]) => s[i] \in { "F", "C", "S", "k", "X" }
-Flags == { x \in FlagCases : NoRepeat(x.order) }
+\* every flag may repeat: list-valued ones accumulate, a second -w/-a/-A has to be refused
+Flags == FlagCases
 
 All == (IF "fop" \in Family THEN Fop ELSE {}) \cup (IF "shape" \in Family THEN Shape ELSE {})
        \cup (IF "cmp" \in Family THEN Cmp ELSE {}) \cup (IF "watch" \in Family THEN Watch ELSE {})
